@@ -10,6 +10,8 @@
      IsPkg(o)   o is a PackageValue (root convention: RefCount 1, no persisted referrer)
      Rc(o), Owner(o) (NoId when none), Esc(o), HashOK(o)
      Cnt(p, o)  number of references from p's stored bytes to o
+     InDeg(o)   number of references to o from all objects of Ids (= sum of Cnt(p, o); supplied by
+                the instantiating module so that it can be computed once per graph)
      Out(p)     set of ids p refers to (possibly outside Ids)
      Ext        ids outside Ids that exist in the store (immutable packages etc.)
 
@@ -22,18 +24,11 @@
 EXTENDS Integers, FiniteSets
 
 CONSTANTS Ids, Counted, NoId, Ext,
-          IsPkg(_), Rc(_), Owner(_), Esc(_), HashOK(_), Cnt(_, _), Out(_)
-
-RECURSIVE SumOver(_, _)
-SumOver(S, o) == IF S = {} THEN 0
-                 ELSE LET p == CHOOSE x \in S : TRUE IN Cnt(p, o) + SumOver(S \ {p}, o)
-
-Referrers(o) == {p \in Ids : Cnt(p, o) > 0}
-InDegree(o) == SumOver(Referrers(o), o)
+          IsPkg(_), Rc(_), Owner(_), Esc(_), HashOK(_), Cnt(_, _), InDeg(_), Out(_)
 
 \* ---- the five clauses, per object (so that a failing object can be named) ----
-RefCountOK(o) == IF IsPkg(o) THEN Rc(o) = 1 /\ Referrers(o) = {}
-                 ELSE Rc(o) = InDegree(o)
+RefCountOK(o) == IF IsPkg(o) THEN Rc(o) = 1 /\ InDeg(o) = 0
+                 ELSE Rc(o) = InDeg(o)
 
 \* owner recorded exactly when singly referenced and never escaped ...
 OwnerRecordedOK(o) == IsPkg(o) \/ ((Owner(o) # NoId) <=> (Rc(o) = 1 /\ ~Esc(o)))
@@ -47,27 +42,29 @@ HashOKAt(o) == HashOK(o)
 
 \* reachability from the packages
 RECURSIVE Closure(_)
-Closure(S) == LET T == S \cup {q \in Ids : \E p \in S : Cnt(p, q) > 0}
+Closure(S) == LET T == S \cup (UNION {Out(p) : p \in S} \cap Ids)
               IN IF T = S THEN S ELSE Closure(T)
 Reachable == Closure({o \in Ids : IsPkg(o)})
 \* an unreachable object is tolerated only when reference counting keeps it alive through a
 \* cycle: inside the unreachable part every object still has a referrer
-ReachOK(o) == o \in Reachable \/ \E p \in Ids \ Reachable : Cnt(p, o) > 0
+ReachOKIn(o, R) == o \in R \/ \E p \in Ids \ R : Cnt(p, o) > 0
+ReachOK(o) == ReachOKIn(o, Reachable)
 
 \* ---- the invariants ----
 RefCountExact == \A o \in Counted : RefCountOK(o)
 OwnerIffSingle == \A o \in Counted : OwnerRecordedOK(o) /\ OwnerHoldsOK(o) /\ SharedEscapedOK(o)
 NoDangling == \A o \in Ids : NoDanglingOK(o)
 HashMatches == \A o \in Ids : HashOKAt(o)
-ReachableUnlessCyclic == \A o \in Counted : ReachOK(o)
+ReachableUnlessCyclic == LET R == Reachable IN \A o \in Counted : ReachOKIn(o, R)
 
-\* names of the clauses an object fails (for reporting on dumped real graphs)
-Fails(o) ==
+\* names of the clauses an object fails (for reporting on dumped real graphs); R = Reachable,
+\* computed once per graph by the caller
+Fails(o, R) ==
   (IF o \in Counted /\ ~RefCountOK(o) THEN {"RefCountExact"} ELSE {}) \cup
   (IF o \in Counted /\ ~OwnerRecordedOK(o) THEN {"OwnerIffSingle:recorded"} ELSE {}) \cup
   (IF o \in Counted /\ OwnerRecordedOK(o) /\ ~OwnerHoldsOK(o) THEN {"OwnerIffSingle:owner-not-the-referrer"} ELSE {}) \cup
   (IF o \in Counted /\ ~SharedEscapedOK(o) THEN {"OwnerIffSingle:shared-not-escaped"} ELSE {}) \cup
   (IF ~NoDanglingOK(o) THEN {"NoDangling"} ELSE {}) \cup
   (IF ~HashOKAt(o) THEN {"HashMatches"} ELSE {}) \cup
-  (IF o \in Counted /\ ~ReachOK(o) THEN {"ReachableUnlessCyclic"} ELSE {})
+  (IF o \in Counted /\ ~ReachOKIn(o, R) THEN {"ReachableUnlessCyclic"} ELSE {})
 =============================================================================
